@@ -78,6 +78,16 @@ func init() {
 			return err == nil, fmt.Sprint(err)
 		})
 	}
+	probes["O88"] = func() (bool, string) {
+		return guard(func() (bool, string) {
+			var to struct{ I interface{} }
+			c1, _ := ucfg.NewFrom(map[string]interface{}{"i": 5})
+			c2, _ := ucfg.NewFrom(map[string]interface{}{"i": "text"})
+			c1.Unpack(&to)
+			err := c2.Unpack(&to)
+			return err != nil || to.I != "text", fmt.Sprint(err, " ", to.I)
+		})
+	}
 	probes["O87"] = func() (bool, string) {
 		return guard(func() (bool, string) {
 			c, _ := ucfg.NewFrom(map[string]interface{}{"m": map[string]interface{}{}})
